@@ -85,6 +85,22 @@ CHECKS = {
        "and a second TLC run evaluates Permutation / Sorted / error propagation / termination on the observations",
   note="BIG = 10^6 in TLC stands for maxinteger; not judged: error messages, number/order of metamethod calls, comparison counts, table.move outside its precondition; open finding C19-3",
   technique="TLA+ specs StrLib.tla, TabLib.tla (direction A, exhaustive) and Sort.tla (direction B, observations validated by TLC)"),
+ "C13": dict(
+  level="translation_validation", ref="5 C13",
+  text="relational conformance against one specification behaviour per program: ~500 (quick) / ~5000 (thorough) programs whose expected events, results and errors "
+       "(incl. error positions) are given by the TLA+ program generators (CloseStack, ErrorFlow, CoSem, TableAbs simulation paths) plus pool/closure stress programs are run "
+       "as the chunk itself, as load(string.dump(chunk)) and as load(string.dump(load(string.dump(chunk)))); each variant must conform to the specification and equal "
+       "the reference variant; dump determinism and dump(load(dump(f))) == dump(f) are byte comparisons in the driver",
+  note="the byte layout of string.dump is not specified (encode/decode fidelity is outside the technique); chunk-level dumps only (nested functions, constants of every type, "
+       "varargs and upvalues occur inside the chunks); programs on which the reference variant itself deviates from the spec are left to the owning property",
+  technique="TLA+ program generators as the oracle; dump/load variants replayed and judged against the same spec behaviour (direction A, relational)"),
+ "C14": dict(
+  level="translation_validation", ref="5 C14",
+  text="the same spec-judged program corpus as C13 plus pool-stressing programs (deep and tail recursion, error unwinding through many frames, abandoned coroutines, closures "
+       "outliving their frame, re-entrant calls from Go, vararg pools) is run by six driver binaries built from /repo with the tag sets default, noregpool, nocontpool, "
+       "noregpool+nocontpool, noquotas, safepool; every build must conform to the specification's expected events/results/errors and agree with the default build",
+  note="the pool life-cycle model (Pools.tla) of DESIGN.md is not built; detection relies on observable differences on the corpus",
+  technique="TLA+ program generators as the oracle; six build variants replayed and judged against the same spec behaviour (direction A, relational)"),
 }
 NOT_YET = {}
 
